@@ -145,7 +145,7 @@ func checkC18(ctx *Ctx) {
 		"distinct_nontrivial = distinct (rule, subscription kind, burst size class, overlap class) checked")
 	ctx.Assume("'not received' is decided only after the drain marker of the same channel object has arrived (delivery per channel is FIFO); a drain watchdog firing is inconclusive",
 		"subscriptions that overlap a publish in time may or may not receive it (at most once)")
-	if ctx.Fork(8, "", 20*time.Minute) {
+	if ctx.Fork(8, "", ctx.Watchdog()) {
 		return
 	}
 	quietLogs()
